@@ -8,6 +8,7 @@ import (
 	"sort"
 	"strconv"
 	"strings"
+	"sync"
 	"time"
 
 	"github.com/go-spring/log"
@@ -15,7 +16,9 @@ import (
 
 func init() { families["c14"] = runC14 }
 
-// Case: "<fileName-hex> <maxAge> <name-hex>:<kind>:<offsetSeconds> ..."
+// Case: "<fileName-hex> <maxAge> <name-hex>:<kind>:<offsetSeconds> ... [ |<seconds after the first pass> <name-hex>:<kind>:<offsetSeconds> ... ]..."
+//   every "|<s>" is a cleanup pass of the SAME appender followed by a wait until <s> seconds after the case began; the entries after it are
+//   written / touched / created before the next pass; a final pass ends the case
 //   kind 0 regular file, 1 directory, 2 symlink to a regular file outside the directory,
 //   3 directory that itself contains an expired regular file named like one of this appender's own files (and a nested one below)
 // Observation: sorted hex names of the survivors.
@@ -27,59 +30,86 @@ func runC14(cases []string, out *bufio.Writer, _ []string) {
 	defer os.RemoveAll(base)
 	target := filepath.Join(base, "symlink-target")
 	os.WriteFile(target, []byte("x"), 0644)
+	results := make([]string, len(cases))
+	var wg sync.WaitGroup
+	sem := make(chan struct{}, 8)
 	for n, c := range cases {
-		f := strings.Fields(c)
-		dir := filepath.Join(base, strconv.Itoa(n))
-		os.Mkdir(dir, 0755)
-		age, _ := strconv.Atoi(f[1])
-		now := time.Now()
-		var inners []string
-		for _, e := range f[2:] {
-			p := strings.Split(e, ":")
-			name := unhex(p[0])
-			off, _ := strconv.Atoi(p[2])
-			path := filepath.Join(dir, name)
-			mt := now.Add(time.Duration(off) * time.Second)
-			switch p[1] {
-			case "0":
-				if err := os.WriteFile(path, []byte("x"), 0644); err != nil {
-					panic(err)
-				}
-				os.Chtimes(path, mt, mt)
-			case "1":
-				os.Mkdir(path, 0755)
-				os.Chtimes(path, mt, mt)
-			case "2":
-				os.Symlink(target, path)
-			case "3":
-				os.MkdirAll(filepath.Join(path, "deeper"), 0755)
-				old := now.Add(-800 * time.Hour)
-				for _, inner := range []string{filepath.Join(path, unhex(f[0])+".20200101000000"), filepath.Join(path, "deeper", unhex(f[0])+".20190101000000")} {
-					os.WriteFile(inner, []byte("x"), 0644)
-					os.Chtimes(inner, old, old)
-					inners = append(inners, inner)
-				}
-				os.Chtimes(path, mt, mt)
+		wg.Add(1)
+		go func(n int, c string) { // cases with waits between their passes run side by side
+			defer wg.Done()
+			sem <- struct{}{}
+			defer func() { <-sem }()
+			results[n] = c14Case(base, target, n, c)
+		}(n, c)
+	}
+	wg.Wait()
+	for _, r := range results {
+		fmt.Fprintln(out, r)
+	}
+}
+
+// one case: the passes of one appender object, the entries of each phase written / touched / created before its pass
+func c14Case(base, target string, n int, c string) string {
+	f := strings.Fields(c)
+	dir := filepath.Join(base, strconv.Itoa(n))
+	os.Mkdir(dir, 0755)
+	defer os.RemoveAll(dir)
+	age, _ := strconv.Atoi(f[1])
+	now := time.Now()
+	var inners []string
+	a := &log.RollingFileAppender{FileDir: dir, FileName: unhex(f[0]), MaxAge: int32(age)}
+	put := func(e string) {
+		p := strings.Split(e, ":")
+		name := unhex(p[0])
+		off, _ := strconv.Atoi(p[2])
+		path := filepath.Join(dir, name)
+		mt := now.Add(time.Duration(off) * time.Second)
+		switch p[1] {
+		case "0":
+			if err := os.WriteFile(path, []byte("x"), 0644); err != nil {
+				panic(err)
 			}
+			os.Chtimes(path, mt, mt)
+		case "1":
+			os.Mkdir(path, 0755)
+			os.Chtimes(path, mt, mt)
+		case "2":
+			os.Symlink(target, path)
+		case "3":
+			os.MkdirAll(filepath.Join(path, "deeper"), 0755)
+			old := now.Add(-800 * time.Hour)
+			for _, inner := range []string{filepath.Join(path, unhex(f[0])+".20200101000000"), filepath.Join(path, "deeper", unhex(f[0])+".20190101000000")} {
+				os.WriteFile(inner, []byte("x"), 0644)
+				os.Chtimes(inner, old, old)
+				inners = append(inners, inner)
+			}
+			os.Chtimes(path, mt, mt)
 		}
-		a := &log.RollingFileAppender{FileDir: dir, FileName: unhex(f[0]), MaxAge: int32(age)}
-		pan, v := guard(func() { a.VerifClearExpired() })
-		if pan {
-			fmt.Fprintf(out, "panic %v\n", v)
+	}
+	for _, e := range f[2:] {
+		if e[0] != '|' {
+			put(e)
 			continue
 		}
-		ents, _ := os.ReadDir(dir)
-		var names []string
-		for _, e := range ents {
-			names = append(names, tohex(e.Name()))
+		if pan, v := guard(func() { a.VerifClearExpired() }); pan {
+			return fmt.Sprintf("panic %v", v)
 		}
-		sort.Strings(names)
-		for _, inner := range inners { // files below the log directory are not this appender's
-			if _, err := os.Stat(inner); err != nil {
-				names = append(names, "DELETED-BELOW:"+tohex(strings.TrimPrefix(inner, dir)))
-			}
-		}
-		fmt.Fprintln(out, strings.Join(names, " "))
-		os.RemoveAll(dir)
+		at, _ := strconv.Atoi(e[1:]) // the next pass happens this many seconds after the first one
+		time.Sleep(time.Until(now.Add(time.Duration(at) * time.Second)))
 	}
+	if pan, v := guard(func() { a.VerifClearExpired() }); pan {
+		return fmt.Sprintf("panic %v", v)
+	}
+	ents, _ := os.ReadDir(dir)
+	var names []string
+	for _, e := range ents {
+		names = append(names, tohex(e.Name()))
+	}
+	sort.Strings(names)
+	for _, inner := range inners { // files below the log directory are not this appender's
+		if _, err := os.Stat(inner); err != nil {
+			names = append(names, "DELETED-BELOW:"+tohex(strings.TrimPrefix(inner, dir)))
+		}
+	}
+	return strings.Join(names, " ")
 }
